@@ -94,6 +94,8 @@ end Rel
 
 /-! ### restriction (`_impl_relation_ops.rs:181-267`) -/
 
+namespace Rel
+
 /-- mutable state of `restriction()`: `output`, `node_cache`, `new_id` (a `Vec<Option<BddPointer>>` in the
     Rust code, indexed by the pointers of the operand; here a finite map) -/
 structure RSt where
@@ -142,13 +144,15 @@ def initRSt (n : Nat) : RSt :=
     cache := ((HashMap.emptyWithCapacity 16).insert (zeroN n) 0).insert (oneN n) 1,
     newId := ((HashMap.emptyWithCapacity 16).insert 0 0).insert 1 1 }
 
+end Rel
+
 /-- `restriction(bdd, values)`: constants are returned unchanged; if the new root is the zero terminal the
     result is the one-node `false` Bdd, otherwise the output array as it is -/
 def restriction (A : Arr) (pv : PVal) : Arr :=
   if A.size = 2 ∨ A.size = 1 then A
   else
     let n := numVars A
-    let r := restrictRec A pv (n + 2) (root A) (initRSt n)
+    let r := Rel.restrictRec A pv (n + 2) (root A) (Rel.initRSt n)
     if r.2 = 0 then mkFalse n else r.1.out
 
 /-- `restrict` -/
